@@ -148,6 +148,38 @@ func c11Files(c *core.Ctx) {
 						if strings.HasSuffix(path, "/properties") {
 							break
 						}
+						if arr, ok := val.([]any); ok && key == "oneOf" {
+							// oneOf demands exactly one matching alternative: a constant that another
+							// alternative's pattern (or an equal constant) also accepts matches two
+							var consts []string
+							var pats []string
+							for _, alt := range arr {
+								m, isObj := alt.(map[string]any)
+								if !isObj {
+									continue
+								}
+								if cs, ok := m["const"].(string); ok {
+									consts = append(consts, cs)
+								}
+								if ps, ok := m["pattern"].(string); ok {
+									if _, hasConst := m["const"]; !hasConst {
+										pats = append(pats, ps)
+									}
+								}
+							}
+							seenConst := map[string]bool{}
+							for _, cs := range consts {
+								if seenConst[cs] {
+									problems = append(problems, fmt.Sprintf("%s: oneOf lists the constant %q twice: it matches two alternatives and is rejected", path, cs))
+								}
+								seenConst[cs] = true
+								for _, ps := range pats {
+									if re, err := regexp.Compile(ps); err == nil && re.MatchString(cs) {
+										problems = append(problems, fmt.Sprintf("%s: oneOf has the constant %q and an alternative with pattern %s that matches it too: the listed value is rejected by the schema (anyOf is meant)", path, cs, ps))
+									}
+								}
+							}
+						}
 						if arr, ok := val.([]any); !ok || len(arr) == 0 {
 							problems = append(problems, fmt.Sprintf("%s: %s must be a non-empty array", path, key))
 						}
@@ -501,21 +533,31 @@ func c11NullFree(c *core.Ctx) {
 					nullable = false
 				}
 			}
+			// a text type whose own published schema rejects the empty string (a pattern that does not
+			// match "", or a minimum length): written without omitempty, an empty value is "" in the output
+			emptyRejected := ""
 			if !nullable {
-				continue
+				if nt, ok := f.Type().(*types.Named); ok {
+					emptyRejected = c11RejectsEmpty(p, nt)
+				}
+				if emptyRejected == "" {
+					continue
+				}
 			}
 			n++
 			required := false
 			if fv := tv.fields[f]; fv != nil {
 				for _, r := range fv.rules {
-					ast.Inspect(r, func(m ast.Node) bool {
-						if e, ok := m.(ast.Expr); ok && core.IsValidationVar(fv.info, e, "Required") {
-							// unconditional only: not inside validation.When(...)
-							required = true
-						}
-						return true
-					})
+					// unconditional only: the rule itself, not one inside validation.When(...)
+					if core.IsValidationVar(fv.info, r, "Required") {
+						required = true
+					}
 				}
+			}
+			if emptyRejected != "" {
+				c.Ob("C11-R3", name+"."+f.Name()+"#not-empty", f.Pos(), required,
+					fmt.Sprintf("%s.%s is serialised as %q without omitempty and its type publishes %s, but the struct's validator does not require it unconditionally: a document the library accepts can contain \"%s\": \"\", which the published schema rejects", name, f.Name(), jn, emptyRejected, jn))
+				continue
 			}
 			if !required {
 				c11Producers(c, named, f, jn)
@@ -525,6 +567,54 @@ func c11NullFree(c *core.Ctx) {
 		}
 	}
 	c.Extra("nullable_members_without_omitempty", n)
+}
+
+// c11RejectsEmpty: the named type is a text type whose JSONSchema method publishes a
+// pattern that does not match the empty string, or a minimum length: what it publishes.
+func c11RejectsEmpty(p *core.Program, nt *types.Named) string {
+	if b, ok := nt.Underlying().(*types.Basic); !ok || b.Info()&types.IsString == 0 {
+		return ""
+	}
+	if nt.Obj().Pkg() == nil || !core.InModule(nt.Obj().Pkg()) {
+		return ""
+	}
+	fd := p.Func(core.RelPkg(nt.Obj().Pkg().Path()), nt.Obj().Name(), "JSONSchema")
+	if fd == nil {
+		return ""
+	}
+	info := fd.Pkg.TypesInfo
+	res := ""
+	ast.Inspect(fd.Decl.Body, func(m ast.Node) bool {
+		kv, ok := m.(*ast.KeyValueExpr)
+		if !ok {
+			return true
+		}
+		id, ok := kv.Key.(*ast.Ident)
+		if !ok {
+			return true
+		}
+		switch id.Name {
+		case "Pattern":
+			pat, ok := foldString(info, kv.Value)
+			if !ok {
+				if v := pkgVar(info, kv.Value); v != nil {
+					folder := &core.Folder{P: p}
+					if s, isS := folder.Fold(fd.Pkg, kv.Value).(string); isS {
+						pat, ok = s, true
+					}
+				}
+			}
+			if ok {
+				if re, err := regexp.Compile(pat); err == nil && !re.MatchString("") {
+					res = "the pattern " + pat
+				}
+			}
+		case "MinLength":
+			res = "a minimum length"
+		}
+		return true
+	})
+	return res
 }
 
 // c11ParsedTypes: types whose text form is parsed by cloud.google.com/go/civil
